@@ -189,14 +189,20 @@ func (m *Manager) ClearPeer(peerID core.PeerID) {
 
 	delete(m.requestsByPeer, peerID)
 
+	// Eject every request of the peer. There can be several for one piece: an
+	// expired request stays in the list when the piece is reserved for the same
+	// peer again.
 	for i, rs := range m.requests {
-		for j, r := range rs {
-			if r.PeerID == peerID {
-				// Eject request.
-				rs[j] = rs[len(rs)-1]
-				m.requests[i] = rs[:len(rs)-1]
-				break
+		kept := rs[:0]
+		for _, r := range rs {
+			if r.PeerID != peerID {
+				kept = append(kept, r)
 			}
+		}
+		if len(kept) == 0 {
+			delete(m.requests, i)
+		} else {
+			m.requests[i] = kept
 		}
 	}
 }
